@@ -39,6 +39,17 @@ func raceMain(args []string) {
 		blocks, refs := cm.Parse(append([]byte(nil), in...))
 		return dumpAll(blocks, refs)
 	}
+	// the concurrent parses read their inputs from ONE arena, as adjacent sub-slices whose capacity is not clamped:
+	// a parser that writes into its caller's buffer would write into its neighbours' inputs
+	var arena []byte
+	offs := make([]int, len(docs)+1)
+	for i, d := range docs {
+		offs[i] = len(arena)
+		arena = append(arena, d...)
+	}
+	offs[len(docs)] = len(arena)
+	arena = append(arena, make([]byte, 64)...)
+	arenaCopy := append([]byte(nil), arena...)
 	// phase 1
 	seq := make([]string, len(docs))
 	for i, d := range docs {
@@ -68,7 +79,8 @@ func raceMain(args []string) {
 				}
 				got = dumpAll(blocks, refs)
 			} else {
-				got = parseDump(d)
+				blocks, refs := cm.Parse(arena[offs[i]:offs[i+1]])
+				got = dumpAll(blocks, refs)
 			}
 			if got != seq[i] {
 				mu.Lock()
@@ -79,6 +91,10 @@ func raceMain(args []string) {
 		}(i, d)
 	}
 	wg.Wait()
+	if !bytes.Equal(arena, arenaCopy) {
+		bad++
+		fmt.Println("DIFF the input arena shared by the concurrent parses was modified")
+	}
 	// phase 2
 	evals := len(docs)
 	if n > len(docs) {
